@@ -192,7 +192,7 @@ func gz(b []byte) []byte {
 }
 
 func recC12() *vkit.Recorder {
-	r := vkit.Rec("C12", "exploration", "rapid-generated exposition payloads (samples, dropped samples, comments, blank, malformed and long lines, multi-byte runes, LF/CRLF, with/without final newline; thorough: up to several MiB and a native fuzz target over raw bytes) x read-chunk patterns (incl. 1-byte chunks) x gzip (one or several members)/identity x short-write patterns on the Prometheus side x target assigned or not; plus interleaved scrapes (the harness suspends one scrape inside a Write while others, possibly after failed gzip scrapes, run to completion on one P); oracle: bytes recorded by the ResponseWriter == payload before compression, Content-Type == the target's, status 200; non-trivial = payload larger than one 64 KiB parser block, or >1 read chunk, or gzip, or a short write occurred; distinct = digest of the case")
+	r := vkit.Rec("C12", "exploration", "rapid-generated exposition payloads (samples, dropped samples, comments, blank, malformed and long lines, multi-byte runes, LF/CRLF, with/without final newline; thorough: up to several MiB and a native fuzz target over raw bytes) x read-chunk patterns (incl. 1-byte chunks) x gzip (one or several members)/identity x short-write patterns on the Prometheus side x target assigned or not; sub-second and fractional scrape timeouts (the transport refuses requests whose deadline has passed); unit TestC12Listener: every request sent through Proxy.Run's TCP listener as a forward proxy and into ServeHTTP, paths not in shortest form and query strings, both answers and the URL the target is asked for compared; plus interleaved scrapes (the harness suspends one scrape inside a Write while others, possibly after failed gzip scrapes, run to completion on one P); oracle: bytes recorded by the ResponseWriter == payload before compression, Content-Type == the target's, status 200; non-trivial = payload larger than one 64 KiB parser block, or >1 read chunk, or gzip, or a short write occurred; distinct = digest of the case")
 	r.Assume("every line is shorter than the statistics parser's 256 KiB line limit (stated precondition of the property); short writes return n < len(p) with a nil error and n >= 1")
 	return r
 }
